@@ -113,5 +113,49 @@ func init() {
 		})
 		g.p("/-- how the delivery log entry fields that the correspondence check reads are computed -/")
 		g.p("def logFields : List String := %s", leanStrList(fields))
+		g.p("")
+		// the share callback handed to partial miners (the first function literal of addPartialMiners): when the cycle is cut off
+		ap := g.methodDecl(fSellerWatcher, "ContractWatcherSellerV2", "addPartialMiners")
+		var cut []string
+		found := false
+		ast.Inspect(ap, func(n ast.Node) bool {
+			fl, ok := n.(*ast.FuncLit)
+			if !ok || found {
+				return !found
+			}
+			found = true
+			for _, st := range fl.Body.List {
+				if is, ok := st.(*ast.IfStmt); ok {
+					var body []string
+					for _, b := range is.Body.List {
+						if strings.HasPrefix(oneLine(g.src(b)), "p.log.") {
+							continue
+						}
+						body = append(body, oneLine(g.src(b)))
+					}
+					line := "if " + oneLine(g.src(is.Cond)) + " { " + strings.Join(body, "; ") + " }"
+					if is.Else != nil {
+						line += " else " + oneLine(g.src(is.Else))
+					}
+					cut = append(cut, line)
+					continue
+				}
+				if strings.HasPrefix(oneLine(g.src(st)), "p.log.") {
+					continue
+				}
+				cut = append(cut, oneLine(g.src(st)))
+			}
+			return false
+		})
+		if !found {
+			fail("addPartialMiners: share callback not found")
+		}
+		for _, l := range cut {
+			if strings.Contains(l, "\"") {
+				fail("addPartialMiners share callback: unexpected string literal in %s", l)
+			}
+		}
+		g.p("/-- the share callback of partial miners (first function literal of `addPartialMiners`), log lines left out -/")
+		g.p("def cutoffStmts : List String := %s", leanStrList(cut))
 	}
 }
